@@ -1,0 +1,14 @@
+//go:build !verif
+
+// Package verifhook provides named observation / yield points for the runtime
+// monitors kept outside this repository. It is compiled in only with the
+// "verif" build tag; without the tag every call site is dead code.
+package verifhook
+
+import "net"
+
+const Enabled = false
+
+func Point(string, ...any) {}
+
+func Addr() net.Addr { return nil }
